@@ -568,6 +568,13 @@ func (s *Service) BatchPickup(connectionID string, size int) (int, error) {
 	select {
 	case batchResp := <-batchCh:
 		for _, msg := range batchResp.Messages {
+			if msg == nil {
+				// "messages~attach": [null] in the mediator's batch
+				logger.Errorf("batch message is empty")
+
+				continue
+			}
+
 			err := s.handle(msg)
 			if err != nil {
 				logger.Errorf("error handling batch message %s: %w", msg.ID, err)
